@@ -10,5 +10,9 @@
 /// only the units that verify timer code (timerwheel, timer, pollslices).
 #[verifier::external_body] #[derive(Debug)]
 pub(crate) struct TimerWheel { _p: () }
+impl TimerWheel {
+    /// no arming yet (defined in the units that look inside the wheel)
+    pub uninterp spec fn is_fresh(&self) -> bool;
+}
 //@ endregion
 //@ endif
